@@ -486,7 +486,32 @@ def _raised_class(r: ast.Raise):
     if isinstance(e, ast.Attribute):
         return e.attr if e.attr[:1].isupper() else "<dynamic>"
     if isinstance(e, ast.Name):
-        return e.id if e.id[:1].isupper() else "<dynamic>"
+        if e.id[:1].isupper():
+            return e.id
+        # `raise saved` where `saved` only ever holds the exception bound by `except X as exc` handlers of this function
+        fn = parent(r)
+        while fn is not None and not isinstance(fn, (ast.FunctionDef, ast.AsyncFunctionDef)):
+            fn = parent(fn)
+        if fn is not None:
+            handler_vars = {}
+            for h in walk_no_nested(fn):
+                if isinstance(h, ast.ExceptHandler) and h.name:
+                    handler_vars.setdefault(h.name, set()).update(handler_names(h))
+            classes, ok = set(), True
+            if e.id in handler_vars:
+                classes |= handler_vars[e.id]
+            for st in walk_no_nested(fn):
+                if isinstance(st, ast.Assign) and any(isinstance(t, ast.Name) and t.id == e.id for t in st.targets):
+                    v = st.value
+                    if isinstance(v, ast.Constant) and v.value is None:
+                        continue
+                    if isinstance(v, ast.Name) and v.id in handler_vars:
+                        classes |= handler_vars[v.id]
+                    else:
+                        ok = False
+            if ok and len(classes) == 1:
+                return next(iter(classes))
+        return "<dynamic>"
     return "<dynamic>"
 
 
